@@ -315,7 +315,7 @@ let parse_fs (w : string list) : (n list * n list) list * (nat * fault) list * s
          | x :: r ->
            (match String.split_on_char ':' x with
             | [i; kind] ->
-              let f = if kind = "n" || kind = "p" || kind = "x" then FNoEffect (* p, x: the same fault with an error of another class *) else FTorn (nat_of_int (int_of_string (String.sub kind 1 (String.length kind - 1)))) in
+              let f = if kind = "n" || kind = "p" || kind = "x" || kind = "d" || kind = "a" then FNoEffect (* p, x: the same fault with an error of another class *) else FTorn (nat_of_int (int_of_string (String.sub kind 1 (String.length kind - 1)))) in
               take_s (k-1) r ((nat_of_int (int_of_string i), f) :: acc)
             | _ -> failwith "bad sched")
          | [] -> failwith "bad SCHED" in
